@@ -301,6 +301,8 @@ pub struct Env<'a> {
     pub sub: &'a str,
     pub shard: u32,
     pub shards: u32,
+    /// volume divisor of this sub-check (second-pass variants run a fraction of the generated volume)
+    pub div: u32,
     pub tally: Tally,
     pub failures: Vec<Failure>,
 }
@@ -311,6 +313,7 @@ impl<'a> Env<'a> {
     }
     pub fn cases(&self, q: u64, mult: u64) -> u32 {
         let n = self.args.cases(q, mult);
+        let n = if self.div > 1 { (n / self.div as u64).max(n.min(64)) } else { n };
         ((n + self.shards as u64 - 1) / self.shards as u64).min(u32::MAX as u64 / 2) as u32
     }
     fn tolerate(&mut self, f: &Fail, words: &[u64]) -> bool {
@@ -463,6 +466,8 @@ pub struct SubCheck<'a> {
     pub run: Box<dyn Fn(&mut Env) + Sync + 'a>,
     /// the bare check function on explicit words (used for --replay)
     pub check: Box<CheckFn<'a>>,
+    /// divisor applied to every generated volume of this sub-check (1 = full)
+    pub div: u32,
 }
 
 impl<'a> SubCheck<'a> {
@@ -472,7 +477,12 @@ impl<'a> SubCheck<'a> {
         run: impl Fn(&mut Env) + Sync + 'a,
         check: impl Fn(&[u64], &mut Tally) -> Result<(), Fail> + Sync + 'a,
     ) -> Self {
-        SubCheck { name: name.into(), shards, run: Box::new(run), check: Box::new(check) }
+        SubCheck { name: name.into(), shards, run: Box::new(run), check: Box::new(check), div: 1 }
+    }
+    /// run a fraction 1/n of the generated volume (fixed enumerations are not affected)
+    pub fn with_div(mut self, n: u32) -> Self {
+        self.div = n.max(1);
+        self
     }
 }
 
@@ -539,7 +549,7 @@ pub fn main_with(property: &str, rule: &str, args: &Args, subs: Vec<SubCheck>) -
                 let (i, sh) = jobs[j];
                 let s = subs[i];
                 let tj = std::time::Instant::now();
-                let mut env = Env { args, sub: &s.name, shard: sh, shards: s.shards, tally: Tally::default(), failures: vec![] };
+                let mut env = Env { args, sub: &s.name, shard: sh, shards: s.shards, div: s.div, tally: Tally::default(), failures: vec![] };
                 env.tally.exhaustive = true;
                 let r = std::panic::catch_unwind(std::panic::AssertUnwindSafe(|| (s.run)(&mut env)));
                 if let Err(p) = r {
